@@ -27,7 +27,9 @@ def fam_polygon(ctx, shape, fr_name, perm, dups):
     out = R.vsub(P.verts[0], P.centre)
     shift = R.vscale(u, P.n)           # and the whole polygon slides along its normal (pose parameter)
     vs = [R.vadd(R.affine(P.verts[0], (t, out)), shift)] + [R.vadd(v, shift) for v in P.verts[1:]]
-    order = [vs[i] for i in perm] + [vs[i] for i in dups]
+    order = [vs[i] for i in perm]
+    for pos, i in dups:                 # repeated vertices: (position in the list, vertex index); position None = append
+        order.insert(len(order) if pos is None else pos, vs[i])
     st, poly = call(lambda: ConvexPolygon(tuple(pt(ctx, v) for v in order)))
     if st == 'raise':
         ctx.outcome('raise')
@@ -142,8 +144,11 @@ def families(tier, seed):
         else:
             perms = [list(range(n)), list(reversed(range(n)))] + [rng.sample(range(n), n) for _ in range(4 if tier == 'quick' else 20)]
         for pi, perm in enumerate(perms):
-            dups = [] if pi % 2 == 0 else [perm[0], perm[-1], perm[0]]
-            fams.append(Family('polygon/%s@%s/order%s%s' % (sh, fr, ''.join(map(str, perm)), '+dup' if dups else ''), fam_polygon, (sh, fr, perm, dups),
+            # repeats at the tail (closed ring), at the head (a, a, b, ...) and inside the first entries (a, b, b, b, c, ...)
+            dmode = ['', '+dup', '', '+duphead', '', '+dupmid'][pi % 6]
+            dups = {'': [], '+dup': [(None, perm[0]), (None, perm[-1]), (None, perm[0])], '+duphead': [(1, perm[0])],
+                    '+dupmid': [(2, perm[1]), (2, perm[1]), (2, perm[0])]}[dmode]
+            fams.append(Family('polygon/%s@%s/order%s%s' % (sh, fr, ''.join(map(str, perm)), dmode), fam_polygon, (sh, fr, perm, dups),
                                must_reach=('ok',)))
     for sh, fr in ([('tri', 'axis'), ('quad', 'axis')] if tier == 'quick' else [(s, f) for s in ('tri', 'quad', 'penta') for f in ('axis', 'oblique', 'pyth3')]):
         for first in ('up', 'down'):
